@@ -195,6 +195,82 @@ fn apply_run(base: &Components, run: &Value) -> Components {
     c
 }
 
+/// abstract view of a hook snapshot (serde form of Vec<Energy>)
+fn abs_from_hook(data: &Value) -> Vec<AbsComp> {
+    let mut out = vec![];
+    for e in data.as_array().unwrap_or(&vec![]) {
+        let (kind, x) = if let Some(x) = e.get("Used") {
+            ("USED", x)
+        } else if let Some(x) = e.get("Prod") {
+            ("PROD", x)
+        } else if let Some(x) = e.get("Aux") {
+            ("AUX", x)
+        } else if let Some(x) = e.get("Out") {
+            ("OUT", x)
+        } else {
+            continue;
+        };
+        out.push(AbsComp {
+            kind: kind.into(),
+            id: x["id"].as_i64().unwrap_or(0),
+            cr: x["carrier"].as_str().unwrap_or("-").to_string(),
+            srv: x["service"].as_str().unwrap_or("-").to_string(),
+            src: x["source"].as_str().unwrap_or("-").to_string(),
+            v: x["values"].as_array().map(|a| a.iter().map(|n| n.as_f64().unwrap_or(f64::NAN)).collect()).unwrap_or_default(),
+            cm: flat::comment_class(x["comment"].as_str().unwrap_or("")),
+        });
+    }
+    out
+}
+
+fn comps_json(cs: &[AbsComp], q: i32) -> Value {
+    Value::Array(cs.iter().filter(|c| c.kind != "NEED").map(|c| c.to_json(q)).collect())
+}
+
+/// Parse event: the declared input, every step of the normalisation as recorded by the hooks
+/// (state before each visited id), the parsed result and the result of normalising it again.
+fn parse_event(case: &Value, text: &str, parsed: &Outcome<Components>, events: &[Value], q: i32) -> Value {
+    // declared components: the abstract input of the case or, for inputs given as text, the state at
+    // the entry of normalize() (the first hook fires before anything is modified)
+    let declared: Vec<AbsComp> = match case["src"]["comps"].as_array() {
+        Some(a) => a.iter().map(AbsComp::from_json).filter(|c| c.kind != "NEED").collect(),
+        None => events.first().map(|e| abs_from_hook(&e["data"])).unwrap_or_default(),
+    };
+    let steps: Vec<Value> = events
+        .iter()
+        .map(|e| {
+            json!({"ev": e["ev"], "carrier": e.get("carrier").cloned().unwrap_or(json!("-")),
+                   "id": e.get("id").cloned().unwrap_or(json!(0)),
+                   "data": comps_json(&abs_from_hook(&e["data"]), q)})
+        })
+        .collect();
+    let mut ev = json!({"ev": "Parse", "case": case["case"], "tag": "parse", "q": q,
+                        "N": declared.first().map(|c| c.v.len()).unwrap_or(0),
+                        "input": Value::Array(declared.iter().map(|c| {
+                            // the parser loads auxiliaries with the service NEPB
+                            let mut c = c.clone();
+                            if c.kind == "AUX" { c.srv = "NEPB".into(); }
+                            c.to_json(q)
+                        }).collect()),
+                        "steps": steps, "textlen": text.len()});
+    ev["out"] = match parsed {
+        Outcome::Ok(c) => {
+            let again = guarded(|| c.clone().normalize());
+            let re = match again {
+                Outcome::Ok(c2) => json!({"ok": true, "data": comps_json(&flat::abs_of_components(&c2), q)}),
+                Outcome::Err(k, m) => fail("renormalize", k, &m),
+                Outcome::Panic(m) => fail("renormalize", "Panic", &m),
+            };
+            let all = flat::abs_of_components(c);
+            let needs: Vec<Value> = all.iter().filter(|c| c.kind == "NEED").map(|c| c.to_json(q)).collect();
+            json!({"ok": true, "data": comps_json(&all, q), "needs": needs, "renorm": re})
+        }
+        Outcome::Err(k, m) => fail("parse", k, m),
+        Outcome::Panic(m) => fail("parse", "Panic", m),
+    };
+    ev
+}
+
 /// an input that fails before any evaluation still yields one event per run of the history,
 /// so that the histories keep their shape in the trace
 fn fail_all(case: &Value, out: &mut dyn Write, o: Value) {
@@ -218,14 +294,31 @@ fn run_case(case: &Value, out: &mut dyn Write) {
     } else {
         case["src"]["text"].as_str().unwrap_or("").to_string()
     };
-    cteepbd::verif::start();
-    let parsed = guarded(|| text.parse::<Components>());
-    let parse_events = cteepbd::verif::take();
+    // every parse iterates the system ids in a fresh hash order: repeating it samples schedules
+    let reps = case.get("reps").and_then(|x| x.as_u64()).unwrap_or(1).max(1);
+    let plog = case.get("parse_log").and_then(|x| x.as_bool()).unwrap_or(false);
+    let q_parse = case.get("parse_q").and_then(|x| x.as_i64()).unwrap_or(4) as i32;
+    let mut last = None;
+    for rep in 0..reps {
+        cteepbd::verif::start();
+        let parsed = guarded(|| text.parse::<Components>());
+        let parse_events = cteepbd::verif::take();
+        if plog {
+            let mut pe = parse_event(case, &text, &parsed, &parse_events, q_parse);
+            pe["tag"] = json!(format!("parse{}", rep));
+            writeln!(out, "{}", pe).ok();
+        }
+        last = Some((parsed, parse_events));
+    }
+    let (parsed, parse_events) = last.unwrap();
     let ids_sched: Vec<Value> = parse_events
         .iter()
         .filter(|e| e["ev"] != "Sort")
         .map(|e| json!([e["ev"], e.get("carrier").cloned().unwrap_or(json!("-")), e["id"]]))
         .collect();
+    if case.get("parse_only").and_then(|x| x.as_bool()).unwrap_or(false) {
+        return;
+    }
     let base = match parsed {
         Outcome::Ok(c) => c,
         Outcome::Err(k, m) => {
@@ -401,6 +494,8 @@ fn run_case(case: &Value, out: &mut dyn Write) {
 }
 
 fn main() {
+    // learn the library's generated comments before hooks are recording
+    let _ = flat::generated_comments();
     // silence the default panic message: panics are data here
     std::panic::set_hook(Box::new(|_| {}));
     let args: Vec<String> = std::env::args().collect();
